@@ -69,6 +69,28 @@ type layerDesc struct {
 	Color  color.RGBA
 }
 
+// recorder is a renderer that writes down what the canvas hands out: the paths stored in the canvas' layers (Canvas.RenderPath keeps
+// a private copy, so the caller's path says nothing about them), their styles and matrices.
+type recorder struct {
+	w, h float64
+	log  []string
+}
+
+func (rc *recorder) Size() (float64, float64) { return rc.w, rc.h }
+func (rc *recorder) RenderPath(path *canvas.Path, style canvas.Style, m canvas.Matrix) {
+	rc.log = append(rc.log, fmt.Sprintf("path %v %v|%v %v %v %v %v|%v", path.Data(), style.Fill.Color, style.Stroke.Color, style.StrokeWidth, style.FillRule, style.Dashes, style.DashOffset, m))
+}
+func (rc *recorder) RenderText(text *canvas.Text, m canvas.Matrix) { rc.log = append(rc.log, fmt.Sprintf("text %v", m)) }
+func (rc *recorder) RenderImage(img image.Image, m canvas.Matrix) {
+	rc.log = append(rc.log, fmt.Sprintf("image %v %v", img.Bounds(), m))
+}
+
+func record(c *canvas.Canvas) []string {
+	rc := &recorder{w: c.W, h: c.H}
+	c.RenderTo(rc)
+	return rc.log
+}
+
 func oneCase(o *out.W, r *rng.R, i int) {
 	W, H := float64(r.Range(8, 36)), float64(r.Range(8, 30))
 	dpmm := rng.Pick(r, []float64{0.5, 1, 2, 3, 4, 0.25, 0.5})
@@ -229,22 +251,46 @@ func oneCase(o *out.W, r *rng.R, i int) {
 		m[1][2] = H*qy - ctr.Y + float64(r.Range(-8, 8))/4
 		p := &canvas.Path{}
 		var polys [][]ipt
+		// one fill layer in five is given in canvas coordinates under the identity matrix (the most ordinary configuration: the
+		// renderer may not skip its private copy of the path) and with open subpaths, which a fill closes implicitly: left open,
+		// returning to the start point with a line, or ending with a line that points straight at the start point
+		baked := !stroke && r.P(1, 5)
 		for _, cont := range ip.Contours {
 			var poly []ipt
+			var first, last canvas.Point
 			for vi, v := range cont {
 				x, y := float64(v.X)*ip.Scale*k, float64(v.Y)*ip.Scale*k
-				if vi == 0 {
-					p.MoveTo(x, y)
-				} else {
-					p.LineTo(x, y)
+				px, py := x, y
+				if baked {
+					q := m.Dot(canvas.Point{X: x, Y: y})
+					px, py = q.X, q.Y
 				}
+				if vi == 0 {
+					p.MoveTo(px, py)
+					first = canvas.Point{X: px, Y: py}
+				} else {
+					p.LineTo(px, py)
+				}
+				last = canvas.Point{X: px, Y: py}
 				poly = append(poly, toPx(m, x, y))
 				if q := m.Dot(canvas.Point{X: x, Y: y}); q.X < 3 || q.Y < 3 || q.X > W-3 || q.Y > H-3 {
 					offcanvas = true // within 3 mm of (or beyond) the canvas edge: strokes up to 4 mm wide may cross it
 				}
 			}
-			p.Close()
+			if !baked {
+				p.Close()
+			} else {
+				switch r.Intn(3) {
+				case 1:
+					p.LineTo(first.X, first.Y)
+				case 2:
+					p.LineTo((first.X+last.X)/2, (first.Y+last.Y)/2)
+				}
+			}
 			polys = append(polys, poly)
+		}
+		if baked {
+			m = canvas.Identity
 		}
 		col := colors[(l+int(uint(i)%3))%len(colors)] // distinct per layer of one case
 		id := int64(l + 1)
@@ -319,6 +365,7 @@ func oneCase(o *out.W, r *rng.R, i int) {
 	}
 	desc := map[string]interface{}{"W": W, "H": H, "dpmm": dpmm, "colorspace": csName, "layers": descs, "image": [2]int{wpx, hpx}}
 	var img1, img2 []byte
+	recBefore := record(c)
 	panicMsg := func() (msg string) {
 		defer func() {
 			if rr := recover(); rr != nil {
@@ -353,6 +400,18 @@ func oneCase(o *out.W, r *rng.R, i int) {
 		for k := range d {
 			if d[k] != before[j][k] {
 				mut = true
+			}
+		}
+	}
+	// the canvas' own copies: what it hands to a renderer after rasterizing must be what it handed out before
+	recAfter := record(c)
+	if len(recAfter) != len(recBefore) {
+		mut = true
+	} else {
+		for j := range recAfter {
+			if recAfter[j] != recBefore[j] {
+				mut = true
+				desc["canvas_layer_changed"] = []string{recBefore[j], recAfter[j]}
 			}
 		}
 	}
